@@ -61,6 +61,7 @@ type FuncContract struct {
 	Results    []string // names for results in ensures (default ret / ret0, ret1 ...)
 	Fresh      bool
 	Ghost      []GhostUpdate // ghost assignments executed at every return
+	LoopAll    []Clause      // invariants that apply to every loop of the function
 }
 
 func (c *FuncContract) FullName() string {
@@ -382,6 +383,16 @@ func (cs *ContractSet) addClause(c *FuncContract, text, where string) error {
 		c.Results = strings.Fields(strings.ReplaceAll(rest, ",", " "))
 	case "props":
 		c.Props = strings.Fields(strings.ReplaceAll(rest, ",", " "))
+	case "loopall":
+		if len(fs) < 3 || fs[1] != "invariant" {
+			return fmt.Errorf("bad loopall clause %q", text)
+		}
+		cl, err := mk(strings.TrimSpace(strings.TrimPrefix(rest, "invariant")), len(c.LoopAll), "inv")
+		if err != nil {
+			return err
+		}
+		cl.Label = "all" + cl.Label
+		c.LoopAll = append(c.LoopAll, cl)
 	case "loop":
 		if len(fs) < 3 {
 			return fmt.Errorf("bad loop clause %q", text)
